@@ -90,6 +90,14 @@ static std::string ShowV(const Value& v) { std::vector<Object *> p; return Show(
 
 struct EvalOut { std::vector<std::string> lines; };
 
+// removes a global the program created - also a constant (`const X = ..`, which Namespace::Remove refuses)
+static void DropGlobal(const Namespace::Ptr& g, const String& key)
+{
+	ObjectLock olock(g);
+	std::unique_lock<decltype(g->m_DataMutex)> dlock(g->m_DataMutex);
+	g->m_Data.erase(key);
+}
+
 static std::set<String> GlobalKeys()
 {
 	std::set<String> r;
@@ -142,7 +150,7 @@ static EvalOut EvalOnce(const std::string& src)
 	bool first = true;
 	for (auto& kv : added) { if (!first) gs += ","; first = false; gs += Esc(kv.first.GetData()) + ":" + ShowV(kv.second); }
 	out.lines.push_back("globals " + gs + "}");
-	for (auto& kv : added) g->Remove(kv.first);
+	for (auto& kv : added) DropGlobal(g, kv.first);
 	return out;
 }
 
@@ -174,24 +182,31 @@ VOP(dsl_eval)
 // any value or script error is fine ("hostile ok"); a crash kills the process (CRASH line from the runner)
 // outcome class of the last hostile run (value / error / syntax), reported only when the script line asks for it (want=...)
 static std::string l_HostileKind;
+static std::string l_HostileValue;
+static bool l_HostileSandbox = false;
 
 static std::string HostileRun(const std::string& src)
 {
 	try {
 		ScriptFrame frame(true, new Dictionary());
+		frame.Sandboxed = l_HostileSandbox;
+		l_HostileValue.clear();
 		std::set<String> before = GlobalKeys();
 		std::unique_ptr<Expression> expr = ConfigCompiler::CompileText("<c15h>", src);
 		std::string r = "hostile ok";
 		l_HostileKind = (expr && dynamic_cast<ThrowExpression *>(expr.get())) ? "syntax" : "value";
 		try {
-			if (expr) expr->Evaluate(frame);
+			if (expr) {
+				ExpressionResult er = expr->Evaluate(frame);
+				if (l_HostileKind == "value") l_HostileValue = ShowV(er.GetValue());
+			}
 		} catch (const std::exception&) {
 			if (l_HostileKind != "syntax") l_HostileKind = "error";
 		}
 		Namespace::Ptr g = ScriptGlobal::GetGlobals();
 		std::vector<String> added;
 		{ ObjectLock l(g); for (const Namespace::Pair& kv : g) if (!before.count(kv.first)) added.push_back(kv.first); }
-		for (auto& k : added) { try { g->Remove(k); } catch (...) {} }
+		for (auto& k : added) DropGlobal(g, k);
 		return r;
 	} catch (const std::exception&) {
 		return "hostile ok";
@@ -213,6 +228,9 @@ VOP(dsl_hostile)
 	LimitStack();
 	std::string src = HexDec(a.str("src", "-"));
 	std::string mode = a.str("mode", "main");
+	l_HostileSandbox = a.num("sb", 0) != 0;
+	bool show = a.has("show");
+	auto outcome = [&]() { return "hostile " + l_HostileKind + (show && l_HostileKind == "value" ? " " + l_HostileValue : ""); };
 	if (a.num("iso", 0)) {
 		// run in a forked child: an overflow of an unguarded coroutine stack corrupts the heap, which must
 		// not leak into the following cases
@@ -222,7 +240,7 @@ VOP(dsl_hostile)
 		if (pid == 0) {
 			close(fds[0]);
 			std::string r = HostileDispatch(src, mode);
-			if (a.has("want")) r = "hostile " + l_HostileKind;
+			if (a.has("want")) r = outcome();
 			ssize_t w = write(fds[1], r.data(), r.size());
 			(void)w;
 			_exit(0);
@@ -243,7 +261,7 @@ VOP(dsl_hostile)
 		return;
 	}
 	std::string r = HostileDispatch(src, mode);
-	if (a.has("want")) r = "hostile " + l_HostileKind;
+	if (a.has("want")) r = outcome();
 	Out(r);
 }
 
